@@ -16,16 +16,18 @@ def ref_outcome(interp, text):
     return ("accept", refpeg.dump(v))
 
 
-def compile_both(grammar, cfg):
+def compile_both(grammar, cfg, _budget=10):
     """-> (interp, mm, error)  error is a string if the implementation refuses the grammar"""
     gtext = refpeg.to_text(grammar)
     rcfg = {k: v for k, v in cfg.items() if k in REF_KEYS}
     interp = refpeg.Interp(grammar, **rcfg)
     try:
-        with watchdog(10):
+        with watchdog(_budget):
             mm = impl.make_mm(gtext, cfg)
-    except CaseTimeout:
-        return interp, None, "timeout while compiling the grammar"
+    except CaseTimeout as e:
+        if _budget < 60:
+            return compile_both(grammar, cfg, 60)  # report a hang only if it repeats with a larger budget
+        return interp, None, "timeout while compiling the grammar at " + str(e)[-700:]
     except RecursionError:
         return interp, None, "RecursionError while compiling the grammar"
     except Exception as e:
